@@ -110,6 +110,14 @@ CHECKS = {
             "solver-chosen order, rows are permuted/duplicated symbolically, and the resulting stub must equal the reference stub up to union "
             "member order; includes the diamond case that exercises RewriteLargeUnion's ancestor choice.",
             TRUST + "Sets are assumed to be the only hash-ordered structure used by the pipeline; real PYTHONHASHSEED variation across processes is not run.", "DESIGN.md#C14"),
+    "C09": (True, "model_checking",
+            "SQL text of the real make_query/list_modules compiled to SMT (z3 strings + bounded relation, cvc5 cross-check in thorough) and compared with the specification; Python-level batch atomicity by symbolic execution against a model connection",
+            "Claimed in part. The query text obtained from the real code is parsed and encoded over a bounded symbolic relation; nine negated-property "
+            "queries (filter soundness/completeness, cardinality min(n,d), distinctness, module listing) must be unsat; sat models are replayed on a "
+            "real SQLiteStore. Batch atomicity is decided symbolically at the Python level for every batch of <= 4 traces, every unserialisable "
+            "subset and every interruption point against the documented sqlite3 context-manager contract.",
+            TRUST + "The hand-written SQLite semantics (LIKE/GLOB/substr/instr, GROUP BY, LIMIT) is validated differentially against real SQLite on "
+            "~17 000 concrete rows each run. Multi-process schedules, crashes inside SQLite and durability are NOT claimed.", "DESIGN.md#C09"),
 }
 
 NOT_APPLICABLE = {
